@@ -151,6 +151,9 @@ def build_calls(d, dtype):
     calls["deterministic_allocation.MaximumWeightMatching.scf"] = (da.MaximumWeightMatching().scf, [vp(vals)])
     calls["deterministic_allocation.root_n_serial_dictatorship"] = (da.root_n_serial_dictatorship, [scp(Pbig)])
     calls["randomized_allocation.RandomSerialDictatorship.scf"] = (seeded(ra.RandomSerialDictatorship().scf), [scp(P)])
+    # rectangular complete profile: more agents than items (the surplus agents get nothing) or fewer
+    calls["randomized_allocation.RandomSerialDictatorship.scf[rect]"] = (seeded(ra.RandomSerialDictatorship(zero_indexed=True).scf), [scp(Pv)])
+    calls["randomized_allocation.RandomSerialDictatorship.scf[rect,transposed]"] = (seeded(ra.RandomSerialDictatorship().scf), [scp(np.array(d["PvT"], dtype=dtype))])
     speeds = np.array(d["speeds"], dtype=float)
     calls["randomized_allocation.SimultaneousEating.bistochastic"] = (ra.SimultaneousEating().bistochastic, [scp(P), speeds])
     calls["randomized_allocation.SimultaneousEating.scf"] = (seeded(ra.SimultaneousEating().scf), [scp(P), speeds])
@@ -207,6 +210,12 @@ def build_calls(d, dtype):
     for cname in ["Profile", "StrictProfile", "ProfileWithTies", "CompleteProfile", "IncompleteProfile", "StrictCompleteProfile", "StrictIncompleteProfile",
                   "CompleteProfileWithTies", "IncompleteProfileWithTies"]:
         calls[f"profile_utils.{cname}.of"] = (getattr(pu, cname).of, [Pv])
+    # "raises in exactly the same cases": arrays that are NOT valid complete strict profiles (ranks shifted by one; largest rank
+    # missing) must be rejected / accepted alike in every storage type
+    for tag, bad in (("shifted", np.array(d["Pv"], dtype=dtype) + 1), ("no_top_rank", np.minimum(np.array(d["Pv"], dtype=dtype), max(1, m - 1)))):
+        for cname in ["Profile", "StrictProfile", "CompleteProfile", "StrictCompleteProfile"]:
+            calls[f"profile_utils.{cname}.of[invalid:{tag}]"] = (getattr(pu, cname).of, [bad])
+        calls[f"utils.check_profile[invalid:{tag}]"] = (lambda a: ut.check_profile(a, is_complete=True, is_strict=True), [bad])
     for cname in ["ValuationProfile", "CompleteValuationProfile", "IncompleteValuationProfile"]:
         calls[f"profile_utils.{cname}.of"] = (getattr(pu, cname).of, [valsv])
     calls["profile_utils.IntegerValuationProfile.of"] = (pu.IntegerValuationProfile.of, [V1])
@@ -310,7 +319,7 @@ def gen_data(R):
             if inst["kind"] == kind:
                 pref[kind] = inst
                 break
-    return {"n": n, "P": P, "P2": P2, "Pv": Pv, "vals": vals, "valsv": valsv, "V1": S.vals_agreeing(R.rng, P, 0, 9), "V2": S.vals_agreeing(R.rng, P2, 0, 9),
+    return {"n": n, "P": P, "P2": P2, "Pv": Pv, "PvT": V.rand_profile(R.rng, len(Pv[0]), len(Pv)), "vals": vals, "valsv": valsv, "V1": S.vals_agreeing(R.rng, P, 0, 9), "V2": S.vals_agreeing(R.rng, P2, 0, 9),
             "k": R.rng.randint(1, m), "lam": R.rng.randint(1, n), "lam2": R.rng.randint(1, n), "speeds": [R.rng.choice([1.0, 2.0, 0.5]) for _ in range(n)],
             "X": X, "net": G, "s": net["s"], "t": net["t"], "bip": {str(k): v for k, v in bg.items()}, "X_": b["X"], "Y_": b["Y"], "Pinc": Pinc,
             "Pties": Pties, "distinct": [R.rng.sample(range(100), n) for _ in range(n)],
